@@ -55,5 +55,8 @@ Tails == { << >>, <<"scan">>, <<"err">>, <<"scan", "err">>, <<"err", "scan", "er
 StopScripts == { h \o pre \o <<stop>> \o t : h \in {<< >>, <<"header">>}, pre \in {Rep("scan", k) : k \in 0 .. 8} \cup {<<"scanall">>, <<"scanall", "err">>},
                                               stop \in {"close", "cancel"}, t \in Tails }
 \* C02 / C06 / C09: scan to the end (an external cancel may be injected by the driver for C07)
-PlainScripts == { <<"scanall", "err">>, <<"header", "scanall", "err">>, <<"scanall", "err", "scan", "err">> }
+PlainScripts == { <<"scanall", "err">>, <<"header", "scanall", "err">>, <<"scanall", "err", "scan", "err">>,
+                  \* Header() is idempotent and may be asked at any time: twice, between Scans, after the end
+                  <<"header", "header", "scanall", "err">>, <<"scan", "header", "scanall", "err">>,
+                  <<"scan", "scan", "scan", "header", "scan", "header", "scanall", "err">>, <<"scanall", "header", "err">> }
 =============================================================================
